@@ -13,7 +13,8 @@ class Stream:
     nontrivial(case, out) -> hashable key or None."""
     name = 'stream'
     prelude = ''
-    case_timeout = 120     # seconds per implementation call (SIGALRM); a time-out is an error outcome of that case
+    case_timeout = None    # seconds per implementation call (SIGALRM); None = 120 for in-process model streams, 1500 for oracle-only /
+                           # sequential streams (which run COMA in subprocesses); a time-out is an error outcome of that case
     mem_limit_gb = 3       # address-space limit of the worker while it runs this stream's impl (None = unlimited; e2e streams spawn subprocesses)
     shard = 400
     model = True          # False: oracle-only stream (no Coq evaluation)
@@ -58,11 +59,12 @@ def _work(args):
     except Exception:
         old_limit = None
     signal.signal(signal.SIGALRM, _alarm)
-    signal.alarm(int(st.case_timeout))
+    limit = int(st.case_timeout or (120 if (st.model and st.parallel) else 1500))
+    signal.alarm(limit)
     try:
         out = st.impl(case)
     except _CaseTimeout:
-        out = dict(err='HARNESS:Timeout after %ss' % st.case_timeout)
+        out = dict(err='HARNESS:Timeout after %ss' % limit)
     except MemoryError:
         out = dict(err='HARNESS:MemoryError (more than %s GB)' % st.mem_limit_gb)
     except Exception as e:           # the adapter itself failed: report as error kind (breaks correspondence)
@@ -102,7 +104,8 @@ def run_stream(mod, st, rep, tier, seed, pool, extra_round=0):
     args = [(mod.__name__, st.name, c) for c in cases]
     if st.parallel and pool is not None and len(cases) > 8:
         # a worker killed from outside (OOM) would make Pool.map wait forever: bound the wait
-        budget = max(300, int(len(args) * st.case_timeout / common.NCPU) + 120)
+        per = st.case_timeout or (120 if (st.model and st.parallel) else 1500)
+        budget = max(300, min(3000, int(len(args) * per / common.NCPU) + 120))
         res = pool.map_async(_work, args, chunksize=max(1, len(args) // (4 * common.NCPU))).get(timeout=budget)
     else:
         res = [_work(a) for a in args]
